@@ -720,6 +720,28 @@ func (e *Env) call(x *ast.CallExpr) *Val {
 		fx.u.uf(u.name, u.decl(fx.u))
 		return &Val{T: "(" + strings.Join(parts, " ") + ")", Ty: u.result}
 	}
+	// pure library functions: the same uninterpreted symbol the code gets
+	if pureFuncs[name] {
+		if i := strings.Index(name, "."); i > 0 {
+			if p := e.importedPkg(name[:i]); p != nil {
+				if f, ok := p.Scope().Lookup(name[i+1:]).(*types.Func); ok {
+					var args []*Val
+					for i := range x.Args {
+						args = append(args, argv(i))
+					}
+					res := f.Type().(*types.Signature).Results()
+					var rt types.Type = res
+					if res.Len() == 1 {
+						rt = res.At(0).Type()
+					}
+					saved := fx.lines
+					v := fx.pureCall(e.st, "pf$"+sanitize(name), args, rt)
+					_ = saved
+					return v
+				}
+			}
+		}
+	}
 	// spec functions (pure Go in the contracts file)
 	if sf := fx.eng.specFunc(e.pkg, name); sf != nil {
 		var args []*Val
